@@ -7,9 +7,13 @@ pub mod c04;
 pub mod c09;
 pub mod c12;
 pub mod c13;
+pub mod c14;
+pub mod c15;
 pub mod c16;
+pub mod c17;
 pub mod c18;
 pub mod c19;
+pub mod c20;
 pub mod farm;
 
 pub fn jobs(prop: &str, tier: Tier) -> Option<(&'static str, Vec<Job>)> {
@@ -31,9 +35,13 @@ pub fn jobs(prop: &str, tier: Tier) -> Option<(&'static str, Vec<Job>)> {
         "C11" => ("model_checking", farm::jobs_c11(tier)),
         "C12" => ("model_checking", c12::jobs(tier)),
         "C13" => ("model_checking", c13::jobs(tier)),
+        "C14" => ("model_checking", c14::jobs(tier)),
+        "C15" => ("model_checking", c15::jobs(tier)),
         "C16" => ("model_checking", c16::jobs(tier)),
+        "C17" => ("model_checking", c17::jobs(tier)),
         "C18" => ("model_checking", c18::jobs(tier)),
         "C19" => ("model_checking", c19::jobs(tier)),
+        "C20" => ("fault_enumeration", c20::jobs(tier)),
         _ => return None,
     })
 }
